@@ -253,9 +253,14 @@ def rule_fusion_table(ctx):
     r.floor(1)
 
 
+def rule_move_across_break(ctx):
+    from .common_effects import move_across_break_rule
+    move_across_break_rule(ctx)
+
+
 def rule_newline_crossing(ctx):
     from .common_effects import newline_crossing_rule
     newline_crossing_rule(ctx)
 
 
-RULES = [rule_lossless_tokenizer, rule_output_once, rule_fusion_guard, rule_fusion_table, rule_no_overlap, rule_nl_in_preproc, rule_effects, rule_newline_crossing]
+RULES = [rule_lossless_tokenizer, rule_output_once, rule_fusion_guard, rule_fusion_table, rule_no_overlap, rule_nl_in_preproc, rule_effects, rule_newline_crossing, rule_move_across_break]
